@@ -162,7 +162,7 @@ c04=[job("named-types","auparse","VH_Header",["C04/"],{"typemode":0,"secdigits":
      job("short-fields","auparse","VH_Header",["C04/"],{"typemode":0,"secdigits":1,"seqdigits":1,"bodymax":2},Q,bounds="one-digit seconds and sequence"),
      job("secs-11-digits","auparse","VH_Header",["C04/"],{"typemode":0,"secdigits":11,"seqdigits":3,"bodymax":0},Q,bounds="seconds 11 symbolic digits < 2^34"),
      job("all-types","auparse","VH_Header",["C04/"],{"typemode":2,"secdigits":10,"seqdigits":10,"bodymax":0},T,bounds="type fully symbolic (all 65536 codes: one path set per table entry plus the unnamed codes)"),
-     job("body-6","auparse","VH_Header",["C04/"],{"typemode":0,"secdigits":10,"seqdigits":10,"bodymax":6},T,bounds="body 0..6 symbolic ASCII bytes")]
+     job("body-5","auparse","VH_Header",["C04/"],{"typemode":0,"secdigits":10,"seqdigits":10,"bodymax":5},T,bounds="body 0..5 symbolic ASCII bytes")]
 for h in range(5):
     c04.append(job(f"hostile-{h}","auparse","VH_Header",["C04/"],{"typemode":0,"hostile":h,"secdigits":10,"seqdigits":10},Q,bounds="concrete hostile body #%d (well-known key names, extra msg=, delimiters, invalid UTF-8, empty)"%h))
 for mode,name in enumerate(["seq-out-of-range","bad-byte-in-field","empty-field","sign-in-sequence","truncations"]):
